@@ -7,12 +7,13 @@ import vlib         # noqa: E402
 
 META = dict(
     engine='mp',
-    technique='enumerated JDF family (generated, compiled by the freshly built ptgpp) x exhaustive box of type bindings, tile sizes, consumer placements and short-message setting, executed on the real runtime under 1..3 MPI ranks; reference model of the documented pack/unpack semantics as oracle',
-    level_text='Every program of the family (one producer of a full m x m int tile, 1-3 consumers, each edge annotated with [type], [type_remote], both, or reading the collection with [type_data]/[type], on the output dep, the input dep or both) is run for every binding of the type names to FULL/LOWER/UPPER with matching packed sizes, m in {2,3,4}, every placement of the consumers on the ranks, with and without short messages. Each consumer snapshots the copy it receives (selected elements must equal the producer\'s values moved by the pack/unpack order, unselected elements must keep the arena fill pattern), then all consumers overwrite their copies with their own marker and every consumer and the producer\'s tile are re-read: a copy may only carry the marker of a consumer that legitimately shares it.',
-    level_note='Real MPI between real processes: message timing is not enumerated. The documented unsupported case (one output flow with several different remote types to the same rank inside short messages) is not generated. Conversions between types of different packed size are not generated (the runtime warns about them). One execution stream per process.',
+    technique='enumerated JDF family (generated, compiled by the freshly built ptgpp: every declaration order of the deps of one output flow, every sharing of local type names among them) x exhaustive box of type bindings, tile sizes, consumer placements and short-message setting, executed on the real runtime under 1..3 MPI ranks; reference model of the documented pack/unpack semantics as oracle',
+    level_text='Every program of the family (one producer of a full m x m int tile whose output flow has 1-3 deps in every declaration order: consumer tasks annotated with [type], [type_remote], both, or reading the collection with [type_data]/[type], on the output dep, the input dep or both, and write-backs of the flow to an element of a second collection with [type]/[type_data] in the four documented combinations; the typed output deps use the same or different type names in every possible way) is run for every binding of the type names to FULL/LOWER/UPPER with matching packed sizes, m in {2,3,4}, every placement of the consumers on the ranks, with and without short messages. Each consumer snapshots the copy it receives (selected elements must equal the producer\'s values moved by the pack/unpack order, unselected elements must keep the arena fill pattern), then all consumers overwrite their copies with their own marker and every consumer and the producer\'s tile are re-read: a copy may only carry the marker of a consumer that legitimately shares it. Every written-back collection element must hold the producer\'s values packed with [type] and unpacked with [type_data], all other elements untouched.',
+    level_note='Real MPI between real processes: message timing is not enumerated. The documented unsupported case (one output flow with several different remote types to the same rank inside short messages) is not generated. Conversions between types of different packed size are not generated (the runtime warns about them). One execution stream per process. Triples of deps are enumerated over reduced kind sets (see NOTES.md). A write-back is executed asynchronously from the producer\'s copy: when a local consumer without conversion shares and overwrites that copy, the written-back elements may hold that consumer\'s marker (accepted: the program itself races).',
 )
-RULE = ("one state = one program instance (structure, m, placement, type binding, ranks, short-message setting), all instances enumerated; transitions = tile elements compared "
-        "with the reference model; an instance is non-trivial when at least one consumer receives a converted copy; outcomes = distinct hashes of all observed snapshots")
+RULE = ("one state = one program instance (structure = ordered deps + naming of the local output types, m, placement, type binding, ranks, short-message setting), all instances enumerated; "
+        "transitions = tile elements compared with the reference model; an instance is non-trivial when at least one consumer receives a converted copy or a write-back converts; "
+        "outcomes = distinct hashes of all observed snapshots and written-back elements")
 
 ENV = dict(os.environ, OMPI_ALLOW_RUN_AS_ROOT='1', OMPI_ALLOW_RUN_AS_ROOT_CONFIRM='1', PARSEC_MCA_bind_threads='0')
 HDIR = os.path.dirname(os.path.abspath(__file__))
@@ -47,47 +48,53 @@ def build(ctx, tier):
         os.unlink(f)
     open(os.path.join(gdir, 'c18.h'), 'w').write(gen.header_text())
     open(os.path.join(gdir, 'glue.c'), 'w').write(gen.glue_text(names))
-    hs = header_state(b)
+    hs = header_state(b) + sha(gen.header_text().encode())
+    for f in ('/verif/engine/seqx/seqx.h',):
+        hs += sha(open(f, 'rb').read())
     cc = ['/usr/bin/mpicc', '-std=gnu11', '-O0', '-w', '-mcx16'] + defs + inc + ['-I' + gdir, '-I/verif/engine/rt', '-I/repo/parsec']
 
     ptgpp_id = sha(open(ptgpp, 'rb').read())
 
+    def compile_cached(key, cmd, obj_name, what):
+        obj = os.path.join(cache, key + '.o')
+        if not os.path.exists(obj):
+            r = subprocess.run(cmd + ['-o', obj + '.tmp%d' % os.getpid()], cwd=gdir, capture_output=True, text=True)
+            if r.returncode != 0:
+                return 'compilation of %s failed:\n%s' % (what, (r.stdout + r.stderr)[-3000:])
+            os.replace(obj + '.tmp%d' % os.getpid(), obj)
+        else:
+            os.utime(obj)
+        return obj
+
     def one(ns):
-        name, s = ns
-        text = gen.jdf_text(name, s)
+        if isinstance(ns, str):          # the driver and the table of structures
+            src = ns
+            return compile_cached(sha((open(src, 'rb').read().decode() + hs + ' '.join(cc)).encode()), cc + ['-O1', '-g', '-I/verif/engine/seqx', '-c', src], None, src)
+        name, (skey, s, to) = ns
+        text = gen.jdf_text(name, s, to)
         open(os.path.join(gdir, name + '.jdf'), 'w').write(text)
         gkey = sha((name + '|' + text + ptgpp_id).encode())
         gc, gh = os.path.join(cache, 'gen-' + gkey + '.c'), os.path.join(cache, 'gen-' + gkey + '.h')
         if not (os.path.exists(gc) and os.path.exists(gh)):      # generated code is cached per (jdf text, ptgpp binary)
             r = subprocess.run([ptgpp, '-E', '--noline', '--Wremoteref', '-i', name + '.jdf', '-o', name, '-f', name], cwd=gdir, capture_output=True, text=True)
             if r.returncode != 0 or not os.path.exists(os.path.join(gdir, name + '.c')):
-                return 'ptgpp failed on structure %s:\n%s' % (s, r.stdout + r.stderr)
+                return 'ptgpp failed on structure %s:\n%s' % (skey, r.stdout + r.stderr)
             shutil.copy(os.path.join(gdir, name + '.h'), gh + '.tmp%d' % os.getpid()); os.replace(gh + '.tmp%d' % os.getpid(), gh)
             shutil.copy(os.path.join(gdir, name + '.c'), gc + '.tmp%d' % os.getpid()); os.replace(gc + '.tmp%d' % os.getpid(), gc)
         else:
             shutil.copy(gc, os.path.join(gdir, name + '.c')); shutil.copy(gh, os.path.join(gdir, name + '.h'))
-        key = sha(open(gc, 'rb').read() + open(gh, 'rb').read() + hs.encode())
-        obj = os.path.join(cache, key + '.o')
-        if not os.path.exists(obj):
-            r = subprocess.run(cc + ['-c', name + '.c', '-o', obj + '.tmp%d' % os.getpid()], cwd=gdir, capture_output=True, text=True)
-            if r.returncode != 0:
-                return 'compilation of generated code for structure %s failed:\n%s' % (s, (r.stdout + r.stderr)[-3000:])
-            os.replace(obj + '.tmp%d' % os.getpid(), obj)
-        return obj
+            os.utime(gc); os.utime(gh)
+        wtext = gen.wrapper_text(name, s, to)                  # one TU per structure: generated code + constructor binding the slots
+        open(os.path.join(gdir, name + '_w.c'), 'w').write(wtext)
+        key = sha(open(gc, 'rb').read() + open(gh, 'rb').read() + wtext.encode() + hs.encode())
+        return compile_cached(key, cc + ['-c', name + '_w.c'], None, 'generated code for structure %s' % skey)
     with ThreadPoolExecutor(max_workers=8) as ex:
-        objs = list(ex.map(one, names))
+        objs = list(ex.map(one, [os.path.join(HDIR, 'reshape_h.c'), os.path.join(gdir, 'glue.c')] + names))
     for o in objs:
         if not o.endswith('.o'):
             sys.stderr.write(o + '\n'); raise vlib.Broken('generation of the JDF family failed')
     exe = os.path.join(vlib.OUT, 'bin', 'C18-reshape-%s' % tier)
-    extra = []
-    for src in (os.path.join(HDIR, 'reshape_h.c'), os.path.join(gdir, 'glue.c')):
-        o = os.path.join(gdir, os.path.basename(src) + '.o')
-        r = subprocess.run(cc + ['-O1', '-g', '-I/verif/engine/seqx', '-c', src, '-o', o], capture_output=True, text=True)
-        if r.returncode != 0:
-            sys.stderr.write(r.stdout + r.stderr); raise vlib.Broken('compilation of %s failed' % src)
-        extra.append(o)
-    r = subprocess.run(['/usr/bin/mpicc'] + extra + objs + ['-o', exe] + ld, capture_output=True, text=True)
+    r = subprocess.run(['/usr/bin/mpicc'] + objs + ['-o', exe] + ld, capture_output=True, text=True)
     if r.returncode != 0:
         sys.stderr.write(r.stdout + r.stderr); raise vlib.Broken('link failed')
     now = time.time()
@@ -109,12 +116,21 @@ def wrapped(exe, n):
     return p
 
 
-def run_parallel(ctx, jobs, width):
-    sem = threading.Semaphore(width)
+def run_parallel(ctx, jobs, maxprocs=8):
+    """run the legs concurrently, never more than `maxprocs` harness processes (ranks) at a time"""
+    cv = threading.Condition(); used = [0]
 
     def go(exe, args, label, tmo):
-        with sem:
+        n = int(re.search(r'-np(\d+)\.sh$', exe).group(1)) if exe.endswith('.sh') else 1
+        with cv:
+            while used[0] + n > maxprocs:
+                cv.wait()
+            used[0] += n
+        try:
             ctx.run_engine(exe, args, label=label, timeout=tmo, env=ENV)
+        finally:
+            with cv:
+                used[0] -= n; cv.notify_all()
     ths = [threading.Thread(target=go, args=j) for j in jobs]
     for t in ths:
         t.start()
@@ -131,9 +147,10 @@ def check(ctx):
     if quick:
         dl = ['--deadline', '55']
         jobs.append((exe, ['--minm', '2', '--maxm', '4', '--minc', '1', '--maxc', '3'] + dl + out, 'np1', 600))
-        for sh in (1, 0):
-            jobs.append((wrapped(exe, 2), ['--minm', '3', '--maxm', '3', '--minc', '1', '--maxc', '2', '--short', str(sh), '--skip-all-local'] + dl + out, 'np2-short%d' % sh, 600))
-        run_parallel(ctx, jobs, 3)
+        for sh in (0, 1):
+            for k in range(2):
+                jobs.append((wrapped(exe, 2), ['--minm', '3', '--maxm', '3', '--minc', '1', '--maxc', '2', '--short', str(sh), '--skip-all-local', '--shard', '%d/2' % k] + dl + out, 'np2-short%d-%d' % (sh, k), 600))
+        run_parallel(ctx, jobs)
     else:
         dl = ['--deadline', '600']
         jobs.append((exe, ['--minm', '2', '--maxm', '4', '--minc', '1', '--maxc', '3'] + dl + out, 'np1', 1500))
@@ -141,16 +158,18 @@ def check(ctx):
             for k in range(2):
                 jobs.append((wrapped(exe, 2), ['--minm', '2', '--maxm', '4', '--minc', '1', '--maxc', '3', '--short', str(sh), '--shard', '%d/2' % k] + dl + out, 'np2-short%d-%d' % (sh, k), 1500))
             jobs.append((wrapped(exe, 3), ['--minm', '3', '--maxm', '3', '--minc', '1', '--maxc', '2', '--short', str(sh), '--skip-all-local'] + dl + out, 'np3-short%d' % sh, 1500))
-        run_parallel(ctx, jobs, 4)
+        run_parallel(ctx, jobs)
     return ctx.finish(RULE, ["message timing between MPI ranks is not controlled (real MPI)",
                              "the type names are bound at run time to FULL/LOWER/UPPER (diagonal included) int tiles of m x m, m in {2,3,4}; arenas are given a filling allocator and no cache so that untouched elements are recognisable",
-                             "documented unsupported case (several different remote types of one flow to one rank inside short messages) excluded; conversions between types of different packed size excluded"])
+                             "documented unsupported case (several different remote types of one flow to one rank inside short messages) excluded; conversions between types of different packed size excluded",
+                             "write-backs ([type]/[type_data] on a dep to a collection element) are checked against CHANGELOG.ptg.md 'Writing to matrix' cases 1-4 with equal packed sizes; the target element lives on the producer's rank; "
+                             "when a local consumer without conversion shares the producer's copy its marker is accepted in the written-back elements (asynchronous write-back, race of the program itself)"])
 
 
 def replay(ctx, path, obj):
     h = obj['history']
     np_ = int(re.search(r'np=(\d+)', h).group(1))
-    kinds = re.search(r' s=(\w+)', h).group(1)
-    tier = 'quick' if kinds in gen.structures('quick') else 'thorough'
+    key = re.search(r' s=(\S+)', h).group(1)
+    tier = 'quick' if key in [k for k, _, _ in gen.structures('quick')] else 'thorough'
     exe, _ = build(ctx, tier)
     return subprocess.call((['mpiexec', '-n', str(np_), '--oversubscribe'] if np_ > 1 else []) + [exe, '--replay', path], env=ENV)
